@@ -425,6 +425,28 @@ fn w_length_in_objstm() -> bool {
     s.is_err()
 }
 
+fn w_action_goto() -> bool {
+    use pdf::object::*;
+    use pdf::primitive::Primitive;
+    let p = pdf::parser::parse(b"<< /S /GoTo /D [3 0 R /Fit] >>", &NoResolve, pdf::parser::ParseFlags::ANY).unwrap();
+    let a = Action::from_primitive(p, &NoResolve).unwrap();
+    let written = a.to_primitive(&mut NoUpdate).unwrap();
+    let back = Action::from_primitive(written.clone(), &NoResolve).map(|_| ()).map_err(|e| e.to_string().chars().take(40).collect::<String>());
+    println!("GoTo action written as {} ; read back: {:?}", written, back);
+    back.is_err()
+}
+
+fn w_font_other() -> bool {
+    use pdf::object::*;
+    let p = pdf::parser::parse(b"<< /Type /Font /Subtype /Type1 /BaseFont /Helvetica /Name /F1 /MyKey 7 >>", &NoResolve, pdf::parser::ParseFlags::ANY).unwrap();
+    let f = pdf::font::Font::from_primitive(p, &NoResolve).unwrap();
+    let w = f.to_primitive(&mut NoUpdate).unwrap();
+    let d = w.into_dictionary().unwrap();
+    let keys: Vec<String> = d.iter().map(|(k, _)| k.to_string()).collect();
+    println!("font dictionary written back with keys {:?} (input had Type Subtype BaseFont Name MyKey)", keys);
+    d.get("MyKey").is_none() || d.get("Name").is_none()
+}
+
 fn main() {
     let all: Vec<(&str, fn() -> bool)> = vec![
         ("lzw_predictor", w_lzw_predictor),
@@ -445,6 +467,8 @@ fn main() {
         ("string_eol", w_string_eol),
         ("current_point_after_close", w_current_point_after_close),
         ("length_in_objstm", w_length_in_objstm),
+        ("action_goto", w_action_goto),
+        ("font_other", w_font_other),
     ];
     let want: Vec<String> = std::env::args().skip(1).collect();
     for (n, f) in all {
